@@ -7,6 +7,8 @@
      chunks_cover           the (start,end) pairs are in range, contiguous, start at 0, end at len, and the
                             slices concatenate to the whole vector (every index exactly once) -- including
                             len < t, len = t, t not dividing len;
+     pardot_closed_form     for ANY arithmetic the result is ((0 + d_0) + d_1) + ... + d_(t-1), d_i the sequential dot
+                            (from 0) of slice i: a reassociation fixed by (len, t) alone;
      pardot_exact           over any ring the chunked sum equals the sequential dot;
      schedule_independent   for ANY arithmetic (floats included) and every completion order sigma of the
                             workers the joined result is the same value: it is the same expression, so on
@@ -55,6 +57,14 @@ Example pardot_exact_nonvacuous :
   pardot (A := AQ) 3 [q 1 2; q 3 1; q (-2) 3; q 5 1; q 1 1] [q 2 1; q 1 3; q 3 1; q 1 5; q (-7) 2]
     = Ok (q (-5) 2).
 Proof. split; [exact AQ_RingLaws|]. repeat split; auto with arith. Qed.
+
+(* for ANY arithmetic, floats included: the value is this fixed reassociation of the sequential sum *)
+Theorem pardot_closed_form : forall (A : Arith) t (v w : list A), 1 <= t -> length v = length w ->
+  pardot t v w = Ok (fold_left (fun acc i => add acc (dot_raw (slice_of v t i) (slice_of w t i))) (seq 0 t) zero).
+Proof. intros A t v w Ht Hl. exact (pardot_closed_form_lemma t v w Ht Hl). Qed.
+Check pardot_closed_form : forall (A : Arith) t (v w : list A), 1 <= t -> length v = length w ->
+  pardot t v w = Ok (fold_left (fun acc i => add acc (dot_raw (slice_of v t i) (slice_of w t i))) (seq 0 t) zero).
+Print Assumptions pardot_closed_form.
 
 Theorem schedule_independent : forall (A : Arith) sigma t (v w : list A),
   Permutation sigma (seq 0 t) -> run_sched sigma t v w = pardot t v w.
